@@ -412,6 +412,10 @@ def run_real(case):
       rec_facts.append('X:record-not-final')
   elif status == 'returned':
     rec_facts.append('X:no-record-handed-to-callbacks')
+  for e in out['log']:
+    if e and e[0] == 'aux-exc':
+      # abort() reports nothing to the operator's thread; an exception out of it (e.g. from kill()) is a failure
+      rec_facts.append('X:abort-call-raised:' + str(e[1]))
   ex = (_TRACED['executors'][-1] if case.get('rerun') else _TRACED['executors'][0]) if _TRACED['executors'] else None
   sync = _sync_tokens(s.events, ex, None)
   toks = [t for _, t in sorted(toks + sync, key=lambda x: x[0])]
@@ -462,6 +466,11 @@ def gen_cases(rng, tier):
         k1 = r.randrange(0, n)
         k2 = k1 + r.choice([0, 1, 2, 3, 5, 8, 13, 30, 60, 100])
         cases.append({'prog': name, 'ks': [k1, k2], 'mode': mode})
+  # every step of the end of the run with plugs: aborts that land during plug tearDown / finalisation
+  for mode in ('thread', 'sigint'):
+    n = _length('plugs', mode)
+    for k in range(max(0, n - 150), n + 3):
+      cases.append({'prog': 'plugs', 'ks': [k], 'mode': mode})
   # the same Test object executed once undisturbed, then again with the SIGINT (what a station loop does)
   for name in ('line', 'group', 'nested', 'subtest', 'plugs'):
     n = _length(name, 'sigint')
